@@ -6,6 +6,8 @@ PROP = dict(
         "hand-written Gallina model coq/Tokens/Model.v of native_nep17.go / native_gas.go / native_neo.go / notary.go / policy.go "
         "(tied by block-by-block comparison of storage dumps, Transfer events and transaction results; not by translation)",
         "harness/c05*.go: neotest chain driver, storage dump decoding with the state types, Go-side evaluation of the invariants",
+        "harness/c05lim.go: helper contracts compiled from Go source (notifier: NotifyN / a callback emitting amount mod 1000 notifications; aborter; looper), the scripts of the lim operations "
+        "(balanceOf before / transfer / balanceOf after packed into one result) and the Go-side per-execution clauses transfer_result / post_effect; pre-Echidna histories are evaluated in Go only (case CDirect)",
         "behaviour probes c05Probe (which of the repaired behaviours F7/F23/F47 the tree has; sets three model flags)",
     ],
     assumptions=[
@@ -22,10 +24,10 @@ PROP = dict(
 META = dict(
     text="Proved in Coq for every block history of the model (induction over any list of blocks of any transactions, faulting ones rolled back): "
          "NEO supply = 100,000,000 = sum of balances; GAS supply = sum of balances; candidate votes = NEO of its voters; voters count; Notary GAS = sum of deposits; "
-         "non-negativity; per-account balance change = net Transfer events; and hypothesis H3 decided: every voted key has a candidate record, so crediting cannot fail "
+         "non-negativity; per-account balance change = net Transfer events; a native movement whose post-effect fails (the 513th notification of an execution since Echidna: Transfer, Vote, CandidateStateChanged, a notification of the receiver's callback or of the calling contract before / after the call) faults the execution with NOTHING changed, otherwise the execution is the native method's own outcome (all-or-nothing theorem; the reading drop the event, keep the balances, answer false is refuted); and hypothesis H3 decided: every voted key has a candidate record, so crediting cannot fail "
          "after the debit and a 'false' transfer changes nothing. The model follows the code's mechanism (updateAccBalance/increaseBalance/ModifyAccountVotes/"
          "dropCandidateIfZero/PostPersist rewards, GAS.OnPersist and Notary.OnPersist with the NotaryAssisted fee flow) and is tied to the real chain by comparing, after EVERY block of random neotest histories, the decoded NEO/GAS/"
-         "Notary/Policy storage, Transfer events and transaction results with the model, plus direct evaluation of every clause on the real dump. "
+         "Notary/Policy storage, Transfer events and transaction results with the model, plus direct evaluation of every clause on the real dump. Histories contain executions with 505..552 notifications of a helper contract before and after a NEO / GAS transfer (incl. to contracts whose onNEP17Payment accepts, throws, aborts, never returns, is missing or emits up to 999 notifications itself), a vote and a registration by payment, so that the 513th notification falls before, on and after every post-effect; for these the script returns balanceOf before / answer / balanceOf after and the harness evaluates per execution: answer true iff the sender was debited by the amount iff the Transfer event was emitted; histories on a chain without Echidna (no limit: must halt with true) are evaluated in Go only. "
          "Partial: Oracle and Treasury flows are not modelled.",
     note="Trusted: Coq kernel + vm_compute, the hand-written model (tied by differential comparison only), the Go harness and its storage decoding, ./check. "
          "Assumed: configuration well-formedness (checked per case), Notary-sent transactions carry the NotaryAssisted attribute with a payer other than the contract, constant committee size.",
